@@ -7,7 +7,7 @@ NAME=$1; SRC=$2; PKGS=$3; DEMO=$4
 export GOFLAGS=-mod=mod GOPROXY=off GOSUMDB=off GOTOOLCHAIN=local
 W=/tmp/wt/confirm-$NAME
 git -C /repo worktree remove --force $W 2>/dev/null
-git -C /repo worktree add -q --detach $W HEAD || exit 2
+git -C /repo worktree add -q --detach $W ${BASE:-HEAD} || exit 2
 trap 'git -C /repo worktree remove --force $W' EXIT
 cp -r $SRC/_demo $W/_demo
 cd $W
